@@ -88,6 +88,14 @@ class Capture:
         cap = self
         self._u = numpy.random.uniform
         self._r = numpy.random.rand
+        self._p = numpy.random.poisson
+        self.poisson = []           # (lam, value) of every numpy.random.poisson call made during the test
+
+        def poisson(*a, **k):
+            v = cap._p(*a, **k)
+            cap.poisson.append((float(a[0]) if a else float(k.get('lam', 1.0)), int(v)))
+            return v
+        numpy.random.poisson = poisson
 
         def uniform(*a, **k):
             v = cap._u(*a, **k)
@@ -132,6 +140,7 @@ class Capture:
     def __exit__(self, *a):
         self.numpy.random.uniform = self._u
         self.numpy.random.rand = self._r
+        self.numpy.random.poisson = self._p
         for name, mod in self.mods.items():
             mod._simulate_catalog = self._orig[name]
         return False
@@ -276,6 +285,12 @@ def run(chk, replay=None):
         chk.count(5)
         if isinstance(res, Raised):
             chk.violation('poisson:L-test raised', {'err': repr(res)})
+        # the number of events of every simulated catalog is a Poisson draw with the forecast mean
+        tot = float(numpy.sum(numpy.array(rates)))
+        if len(cap.poisson) != len(cap.calls) or any(abs(lam - tot) > 1e-12 * tot for lam, _ in cap.poisson) or \
+                [v for _, v in cap.poisson] != [tgt for (_, tgt, _, _, _) in cap.calls]:
+            chk.violation('poisson:L-test event number is not a Poisson draw with the forecast mean',
+                          {'poisson_calls': cap.poisson[:5], 'targets': [c[1] for c in cap.calls][:5], 'forecast_total': tot})
         for (name, tgt, weights, draws, out) in cap.calls:
             dr = [project_draw(cdf, u, n, True) for u in draws]
             add_trace(base_trace(kind='poisson', target=tgt, n=n, zero=[1 if x == 0 else 0 for x in rates],
